@@ -261,6 +261,43 @@ func Gen(rt *rapid.T) Config {
 			pre[0] = append(pre[0], Op{Kind: OpClose, Ch: c})
 		}
 	}
+	// a fourth style: a producer overfills a buffered channel and parks; the consumer takes
+	// fewer values than are buffered and then waits for something only the producer will do
+	if !paired && rapid.IntRange(0, 2).Draw(rt, "overflow") == 0 {
+		paired = true
+		c := ch()
+		cfg.Chans[c].Nil = false
+		if cfg.Chans[c].Cap == 0 {
+			cfg.Chans[c].Cap = rapid.IntRange(1, 2).Draw(rt, "overflowcap")
+		}
+		sync := len(cfg.Chans)
+		cfg.Chans = append(cfg.Chans, ChanSpec{Cap: 0})
+		nsend := cfg.Chans[c].Cap + rapid.IntRange(1, 2).Draw(rt, "overflowextra")
+		for k := 0; k < nsend; k++ {
+			pre[1] = append(pre[1], Op{Kind: OpSend, Ch: c, Val: nextVal()})
+		}
+		pre[1] = append(pre[1], Op{Kind: OpSend, Ch: sync, Val: nextVal()})
+		for k := rapid.IntRange(0, 2).Draw(rt, "overflowyield"); k > 0; k-- {
+			pre[0] = append(pre[0], Op{Kind: OpGosched})
+		}
+		ntake := rapid.IntRange(1, nsend-cfg.Chans[c].Cap).Draw(rt, "overflowtake")
+		for k := 0; k < ntake; k++ {
+			if rapid.Bool().Draw(rt, "overflowsel") {
+				pre[0] = append(pre[0], Op{Kind: OpSelect, Cases: []Case{{Ch: c}}})
+			} else {
+				pre[0] = append(pre[0], Op{Kind: OpRecv2, Ch: c})
+			}
+		}
+		if ntake < nsend-cfg.Chans[c].Cap {
+			// the producer still needs room: a helper drains the rest
+			if ng >= 3 {
+				pre[2] = append(pre[2], Op{Kind: OpRange, Ch: c, Bound: nsend - ntake})
+			} else {
+				pre[0] = append(pre[0], Op{Kind: OpRange, Ch: c, Bound: nsend - ntake - cfg.Chans[c].Cap})
+			}
+		}
+		pre[0] = append(pre[0], Op{Kind: OpRecv, Ch: sync})
+	}
 	for g := 0; g < ng; g++ {
 		script := pre[g]
 		n := rapid.IntRange(1, 4).Draw(rt, "nops")
@@ -311,7 +348,7 @@ func Gen(rt *rapid.T) Config {
 	main := cfg.Scripts[0]
 	for g := 1; g < ng; g++ {
 		pos := rapid.IntRange(0, len(main)).Draw(rt, "gopos")
-		if crowd || rapid.IntRange(0, 1).Draw(rt, "goearly") == 0 {
+		if crowd || paired || rapid.IntRange(0, 1).Draw(rt, "goearly") == 0 {
 			pos = 0
 		}
 		if len(main) > 0 && main[len(main)-1].Kind == OpGoexit && pos == len(main) {
